@@ -1,6 +1,6 @@
 (* C18 — Reader limits hold and readers are torn down when the stream goes away. Only statements here. *)
 From Coq Require Import List ZArith.
-Require Import MTX.Lib.Trace MTX.Model.PathSM MTX.Proofs.PathSM MTX.Proofs.PathSM_Thms.
+Require Import MTX.Lib.Trace MTX.Model.PathSM MTX.Proofs.PathSM MTX.Proofs.PathSM_Thms MTX.Proofs.PathSM_Teardown.
 Import ListNotations.
 Local Open Scope Z_scope.
 
@@ -29,3 +29,24 @@ Theorem C18_readers_need_stream : forall cf ops,
   let s := final step (init_state cf) ops in s_stream s = None -> s_readers s = [].
 Proof. exact (c18_readers_need_stream true). Qed.
 Print Assumptions C18_readers_need_stream.
+
+(* teardown: from any state reached by a history (Inv), a step that leaves the path without stream has closed
+   every attached reader (except one removed by this very RemoveReader) and leaves no reader attached *)
+Theorem C18_teardown : forall s o,
+  Inv true s -> s_stream (fst (step s o)) = None ->
+  s_readers (fst (step s o)) = [] /\
+  forall r, In r (s_readers s) -> o <> RemoveReader r -> In (EReaderClosed r) (snd (step s o)).
+Proof. exact (c18_teardown true). Qed.
+Print Assumptions C18_teardown.
+
+(* ... and Inv holds after every history *)
+Theorem C18_inv_reachable : forall cf ops, conf_ok cf = true -> Inv true (final step (init_state cf) ops).
+Proof. exact (PathSM_List.inv_run true). Qed.
+Print Assumptions C18_inv_reachable.
+
+(* an attached reader stays attached or is closed: it is never dropped silently *)
+Theorem C18_no_silent_drop : forall s o r,
+  In r (s_readers s) -> o <> RemoveReader r ->
+  In r (s_readers (fst (step s o))) \/ In (EReaderClosed r) (snd (step s o)).
+Proof. exact (td_step true). Qed.
+Print Assumptions C18_no_silent_drop.
